@@ -17,6 +17,10 @@ import (
 )
 
 func (w *World) script(o *Obligation, forModel bool) string {
+	return w.scriptOpt(o, forModel, false)
+}
+
+func (w *World) scriptOpt(o *Obligation, forModel bool, dropWeak bool) string {
 	var b strings.Builder
 	if forModel {
 		b.WriteString("(set-option :produce-models true)\n")
@@ -31,6 +35,9 @@ func (w *World) script(o *Obligation, forModel bool) string {
 		b.WriteByte('\n')
 	}
 	for _, a := range w.axioms {
+		if dropWeak && w.weak[a] {
+			continue
+		}
 		b.WriteString("(assert " + a + ")\n")
 	}
 	for _, g := range sortedKeys(w.distinct) {
@@ -39,6 +46,9 @@ func (w *World) script(o *Obligation, forModel bool) string {
 		}
 	}
 	for _, a := range o.Assumes {
+		if dropWeak && w.weak[a] {
+			continue
+		}
 		b.WriteString("(assert " + a + ")\n")
 	}
 	b.WriteString("(assert (not " + o.Goal + "))\n")
@@ -214,7 +224,13 @@ func solveAll(items []*solveItem, timeoutS int, needTwo bool, workers int) {
 					o.Status = "failed"
 				default:
 					o.Status = "unknown"
-					// retry: split the goal into its conjuncts and prove each on its own
+					// retry 1: without the typing axioms (fewer useless instantiations; dropping
+					// assumptions is sound)
+					if r2 := solve(it.w.scriptOpt(o, false, true), strings.TrimSuffix(it.file, ".smt2")+".noty.smt2", to, false); r2.status == "unsat" {
+						o.Status, o.Solver, o.TimeS = "proved", "noty:"+r2.solver, r.timeS+r2.timeS
+						continue
+					}
+					// retry 2: split the goal into its conjuncts and prove each on its own
 					if parts := splitGoal(o.Goal); len(parts) > 1 {
 						all := true
 						tot := r.timeS
@@ -223,6 +239,11 @@ func solveAll(items []*solveItem, timeoutS int, needTwo bool, workers int) {
 							po := *o
 							po.Goal = part
 							pr := solve(it.w.script(&po, false), fmt.Sprintf("%s.part%d.smt2", strings.TrimSuffix(it.file, ".smt2"), pi), to, false)
+							if pr.status != "unsat" && pr.status != "sat" {
+								if pr2 := solve(it.w.scriptOpt(&po, false, true), fmt.Sprintf("%s.part%d.noty.smt2", strings.TrimSuffix(it.file, ".smt2"), pi), to, false); pr2.status == "unsat" {
+									pr = pr2
+								}
+							}
 							tot += pr.timeS
 							if pr.status != "unsat" {
 								all = false
